@@ -246,9 +246,15 @@ def close(elt, a, b, scale, tol=1e-11):
         if abs(a) == math.inf or abs(b) == math.inf: return a == b
     return abs(a - b) <= tol * max(scale, 1e-300)
 
+def dense_scale(elt, D):
+    """tolerance scale of the float comparisons of entries: the largest finite magnitude of the dense twin (0 = exact for Rat).
+    An entry is compared normwise, not relative to itself: a sum that cancels to (nearly) zero carries the rounding of its
+    operands (the bit-level demand on every entry is the model tie's, not the oracle's)"""
+    return max([abs(x) for r in D for x in r if isfinite(x)] + [0.0]) if elt != 'rat' else 0
+
 def dense_close(elt, D, E, tol=1e-11):
     n = len(D)
-    sc = max([abs(x) for r in D for x in r if isfinite(x)] + [0.0]) if elt != 'rat' else 0
+    sc = dense_scale(elt, D)
     for i in range(n):
         for j in range(n):
             if not close(elt, D[i][j], E[i][j], sc, tol):
@@ -329,6 +335,7 @@ def walk(elt, B, ops, items, stats=None):
         if op[0] == "getall":
             # n*n entries, each a value or a panic
             exp = expect[1]
+            gsc = dense_scale(elt, ref.D)
             for i in range(ref.n):
                 for j in range(ref.n):
                     if items[pos][0] == 'P':
@@ -337,7 +344,7 @@ def walk(elt, B, ops, items, stats=None):
                     else:
                         x, pos = parse_items_scalar(items, pos, elt)
                         if exp[i][j] is None: return "%s: index (%d,%d) is outside the band but the access returned %r" % (what, i, j, x)
-                        if not close(elt, exp[i][j], x, abs(exp[i][j]) if elt != 'rat' else 0):
+                        if not close(elt, exp[i][j], x, gsc):
                             return "%s: element (%d,%d) is %r, the dense twin has %r" % (what, i, j, x, exp[i][j])
             bump("getall")
             continue
@@ -362,7 +369,7 @@ def walk(elt, B, ops, items, stats=None):
             pos += 1
         elif kind == 's':
             x, pos = parse_items_scalar(items, pos, elt)
-            if not close(elt, expect[1], x, abs(expect[1]) if elt != 'rat' else 0):
+            if not close(elt, expect[1], x, dense_scale(elt, ref.D)):
                 return "%s: got %r, dense twin has %r" % (what, x, expect[1])
             bump("get")
         elif kind == 'n':
